@@ -291,3 +291,19 @@ Theorem c14_deposit_item_relaxed_channel_refuted :
               box_take_bad (RA.result (RA.run (RA.init (box_take_prog Relaxed Relaxed Relaxed Relaxed)) sch)) = true.
 Proof. exact box_take_relaxed_channel_witness. Qed.
 Print Assumptions c14_deposit_item_relaxed_channel_refuted.
+
+(* special members: IdAllocator(IdAllocator&&) and operator=(IdAllocator&&) are `= default` in id_allocator.h and no
+   special member is defined by hand in id_allocator.hpp (regenerated counts) - a move carries the whole abstract state
+   (head value and version, free list, _next_value, link table) to the new object, so every statement above about
+   `sh s` (c14_reuse_when_quiet in particular: the next solo allocate reuses the top of the free list and mints
+   nothing) continues to hold for the moved-to allocator.  A hand-written special member makes move_defaulted false and
+   the model's move drops the free list: these proofs then fail. *)
+Require Import Verif.ID.IDMove.
+Theorem c14_move_transfers_free_list : forall c s, move_shared c s = s.
+Proof. exact move_shared_id. Qed.
+Print Assumptions c14_move_transfers_free_list.
+Theorem c14_move_keeps_head_and_links : forall c s,
+  hv (move_shared c s) = hv s /\ hk (move_shared c s) = hk s /\ fl (move_shared c s) = fl s /\
+  nv (move_shared c s) = nv s /\ nxt (move_shared c s) = nxt s.
+Proof. exact move_keeps_free_list. Qed.
+Print Assumptions c14_move_keeps_head_and_links.
